@@ -9,6 +9,7 @@ import BBProofs.Ops
 import BBProofs.Labels
 import BBProofs.RefPolicy
 import BBProofs.GenEq2
+import BBProofs.GenEq6
 
 namespace BB
 
@@ -247,5 +248,13 @@ theorem C01_code_member_lists (expf : Rat → Rat) (m : MergeFn) (thr : Rat) (c 
     by_cases ha : accept m (tabOf expf) thr (c.mergedSummary s) c.summary s.summary = true
     · simp [ha, stateOf, Clu.merge]
     · simp [ha, stateOf]
+
+
+/-- code: a fitted fingerprint enters the tree as a singleton object carrying exactly its own label (count 1, the row as
+sums and as centroid) -/
+theorem C01_code_singleton (expf : Rat → Rat) (r : Row) (label : Nat) (wi : W) (nf : PV) (check : Bool) :
+    BBGen._BFSubcluster_init expf (PV.arr .u8 (rowToNat r)) (PV.arr wi [label]) nf PV.pynone (PV.bool check)
+      = PV.pynone :: stateOf (Clu.ofRow r label) PV.pynone :=
+  gen_subcluster_init_row expf r label wi nf check
 
 end BB
